@@ -48,6 +48,7 @@ def strategy(tier):
         st.tuples(st.just('read'), i),
         st.tuples(st.just('observe'), st.booleans()),
         st.tuples(st.just('minimize')),
+        st.tuples(st.just('foreign'), st.integers(0, 5), d),
     ).map(list)
     return st.fixed_dictionaries({'kind': st.sampled_from(['fs', 'fs', 'bmap']),
                                   'ops': st.lists(op, min_size=3, max_size=n)})
@@ -322,6 +323,8 @@ class BlobWorld:
             self.undo(op[1])
         elif k == 'pack':
             self.pack(op[1])
+        elif k == 'foreign':
+            self.foreign_calls(op[1], DATA[op[2]])
         elif k == 'minimize':
             # the connection forgets every object it can (unchanged or saved by a savepoint): blobs written
             # before a savepoint are then known to the connection by their records only
@@ -330,6 +333,56 @@ class BlobWorld:
             gc.collect()            # (ghosts stay in the cache while anything, e.g. a closed blob file, refers to them)
             if self.sps:
                 self.labels.add('cache-minimized-after-savepoint')
+
+    def foreign_calls(self, which, data):
+        """storage level: while a transaction holds a stored blob, calls made with ANOTHER transaction object are
+        rejected (tpc_abort: ignored) without effect; then the transaction finishes and its blob is there"""
+        from ZODB.blob import Blob
+        from ZODB.Connection import TransactionMetaData
+        from ZODB.POSException import StorageTransactionError
+        from ZODB.serialize import ObjectWriter
+        if self.dirty():
+            return
+        self.tm.abort()
+        self.end_txn()
+        st_ = self.storage
+        record = ObjectWriter(None).serialize(Blob())
+        t1, t2 = TransactionMetaData(), TransactionMetaData()
+        self.nscratch += 1
+        mine = os.path.join(self.scratch, 'raw%d' % self.nscratch)
+        with open(mine, 'wb') as f:
+            f.write(data)
+        other = os.path.join(self.scratch, 'rawx%d' % self.nscratch)
+        with open(other, 'wb') as f:
+            f.write(b'FOREIGN')
+        st_.tpc_begin(t1)
+        oid = st_.new_oid()
+        st_.storeBlob(oid, b'\0' * 8, record, mine, '', t1)
+        try:
+            if which == 0:
+                st_.tpc_abort(t2)                       # documented: ignored
+            else:
+                call = [None, lambda: st_.tpc_vote(t2), lambda: st_.tpc_finish(t2),
+                        lambda: st_.store(st_.new_oid(), b'\0' * 8, record, '', t2),
+                        lambda: st_.storeBlob(oid, b'\0' * 8, record, other, '', t2),
+                        lambda: st_.storeBlob(st_.new_oid(), b'\0' * 8, record, other, '', t2)][which]
+                try:
+                    call()
+                except StorageTransactionError:
+                    pass
+                else:
+                    self.fail('foreign-transaction', 'accepted', 'a call (#%d) with a transaction other than the one in progress was accepted' % which)
+        finally:
+            if self.out.failures:
+                st_.tpc_abort(t1)
+                return
+        st_.tpc_vote(t1)
+        tid = st_.tpc_finish(t1)
+        self.rev_bytes[(oid, tid)] = data
+        self.record_txn('raw')
+        self.labels.add('foreign-transaction-calls')
+        self.tm.begin()
+        self.after_boundary('after a raw transaction that saw calls with a foreign transaction (#%d)' % which)
 
     def dirty(self):
         return bool(self.work or self.node_work is not None)
